@@ -55,7 +55,7 @@ def setup():
 
 def one_run(scenario, wseed, miri_seed, rate):
     e = menv()
-    e["MIRIFLAGS"] = f"-Zmiri-seed={miri_seed} -Zmiri-preemption-rate={rate}"
+    e["MIRIFLAGS"] = f"-Zmiri-seed={miri_seed} -Zmiri-preemption-rate={rate} -Zmiri-ignore-leaks"
     r = subprocess.run(["cargo", "+nightly", "miri", "run", "--offline", "-q", "--", scenario, str(wseed)], cwd=ck.MTH, env=e, stdout=subprocess.PIPE, stderr=subprocess.STDOUT, text=True, timeout=900)
     return r.returncode, r.stdout
 
